@@ -231,17 +231,26 @@ CONFIG["C12"] = {
                     "tau is modelled as an integer (the code applies int(tau))"],
 }
 CONFIG["C13"] = {
-    "level": "other", "proof": True, "rtc": True,
-    "explanation": "Proved: sqra_normalize on csr input (off-diagonal unchanged, diagonal reset, rows sum to zero, frame); the "
-                   "intermediate assertion of delete_rate_cells that `to_keep` is the strictly ascending complement of the removed rows "
-                   "(for all n and removal lists; this is what keeps matrix and index list aligned); SQRA.cut_and_merge over the four "
-                   "limit combinations against the callee contracts (unchanged matrix without list, or list with one group per row). "
+    "level": "other", "proof": True, "rtc": True, "lean": ["lemmas/C13EnumUnique.lean"], "lean_quick": True,
+    "explanation": "Proved: sqra_normalize on csr input (off-diagonal unchanged, diagonal reset, rows sum to zero, frame); "
+                   "delete_rate_cells end to end for a csr matrix of any size n and any removal list, no incoming index list: `to_keep` K is "
+                   "the strictly ascending complement of the removed rows, the result is |K| x |K| with entry (a,b) = M[K_a,K_b] off the "
+                   "diagonal and zero row sums, the returned index list has one group per row and group a = [K_a] (rows and groups "
+                   "aligned), input data untouched; the alignment step (two ascending enumerations of one set coincide) is the Lean 4 / "
+                   "Mathlib lemma enum_unique (lemmas/C13EnumUnique.lean, checked on every run) whose hypotheses are SMT-discharged "
+                   "obligations; SQRA.cut_and_merge over the four limit combinations against the callee contracts (unchanged matrix "
+                   "without list, or list with one group per row) -- the summary used for the upper-limit-only call is now the proved one. "
                    "Bounded only (exhaustive over matrices of size <= 5, all partitions / deletion sets / 2-3 step histories, dense and "
-                   "csr, sizes 9-12): the lumping sums and the index-list bookkeeping of merge_matrix_cells and delete_rate_cells.",
-    "trusted_base": [SCIPY_SPARSE, "library contracts: set(range(n)), set difference, sorted(set) = ascending filter of the range by "
-                     "membership; list(set) = arbitrary order", "ASSUMED callee contracts inside cut_and_merge (bounded-checked): "
-                     "merge_matrix_cells / delete_rate_cells return a square matrix and an index list with one group per row"],
-    "assumptions": ["merge_matrix_cells (networkx components, nested comprehensions over nested lists) is outside the verifier's subset: bounded only"],
+                   "csr, sizes 9-12): the lumping sums and the index-list bookkeeping of merge_matrix_cells, delete_rate_cells with an "
+                   "incoming index list, dense inputs.",
+    "trusted_base": [SCIPY_SPARSE + "; A[:, idx] / A[idx, :] on csr/csc (selected columns / rows in the order of idx, IndexError outside "
+                     "[-dim, dim)), tocsc / tocsr keep the dense view", "library contracts: set(range(n)), set difference, sorted(set) = "
+                     "ascending filter of the range by membership; list(set) = arbitrary order; filtered comprehension = ascending "
+                     "enumeration of the positions that satisfy the condition; `x in <filter result>` = the defining condition",
+                     "ASSUMED callee contracts inside cut_and_merge (bounded-checked): merge_matrix_cells, and delete_rate_cells with "
+                     "an incoming index list, return a square matrix and an index list with one group per row"],
+    "assumptions": ["merge_matrix_cells (networkx components, nested comprehensions over nested lists) is outside the verifier's subset: bounded only",
+                    "delete_rate_cells with an incoming index list (np.where over nested membership, np.unique) is bounded only"],
 }
 CONFIG["C17"] = {
     "level": "other", "proof": True, "rtc": True,
